@@ -1,11 +1,16 @@
 import EaselModel.Core.Proto
 import EaselModel.Buffer.Model
 import EaselModel.Buffer.SpecHist
+import EaselModel.Buffer.Safe
 /-! Line-protocol driver for the C05 model (esl_buffer.c).
 
   open mode=<string|stream|pipe|file|allfile|mmap|auto|open> ps=<pagesize> hex=<input bytes>
   getline | fetchline | fetchlinestr | gettoken sep=<hex> | fetchtoken sep=<hex> | fetchtokenstr sep=<hex>
   read k=<n> | get | set k=<nused> | getoffset | setoffset o=<n> | setanchor o=<n> | setstable o=<n> | raise o=<n>
+  tryset k= | trysetoffset o= | trysetanchor o= | trysetstable o=   (histories OUTSIDE the API contract: the op is executed
+      only if it respects the residual duties `SafeOp` in the current state of this side — the harness evaluates the same
+      predicate on the real ESL_BUFFER —, otherwise the answer is `unsafe` and nothing happens; from the first try-op on
+      the `spec=`/`valid=` side channel is dropped: outside the contract the specification is `Total`, not `specStep`)
 
   answer: `<status> <hex bytes> n=<count> off=<offset after the op>[ z=1][ moved=1] spec=<status>,<hex>,<off> valid=<0|1>`
   where `spec=` is the observation `specStep` prescribes and `valid=` says whether the op is inside the API contract
@@ -46,6 +51,10 @@ def parseOp (ws : List String) : Option Op :=
   | some "setanchor" => (argNat? ws "o").map .setAnchor
   | some "setstable" => (argNat? ws "o").map .setStableAnchor
   | some "raise" => (argNat? ws "o").map .raiseAnchor
+  | some "tryset" => (argNat? ws "k").map .set
+  | some "trysetoffset" => (argNat? ws "o").map .setOffset
+  | some "trysetanchor" => (argNat? ws "o").map .setAnchor
+  | some "trysetstable" => (argNat? ws "o").map .setStableAnchor
   | _ => none
 
 def fmt (o : Out) (s : Sess) : String :=
@@ -60,6 +69,7 @@ structure DState where
   s : Sess
   a : AState
   P : Nat
+  wild : Bool := false
 
 def stepLine (st : Option DState) (line : String) : Option DState × String :=
   let ws := words line
@@ -83,6 +93,11 @@ def stepLine (st : Option DState) (line : String) : Option DState × String :=
   else
     match st, parseOp ws with
     | some d, some op =>
+      let isTry := (ws.head?.getD "").startsWith "try"
+      if isTry && !safeB d.s op then
+        (some { d with s := { d.s with lastp := none }, wild := true }, "unsafe")
+      else
+      let d := if isTry then { d with wild := true } else d
       let (o0, s0) := d.s.step op
       -- with NULL result pointers nothing is handed out
       let null := (ws.head?.getD "").endsWith "0"
@@ -90,6 +105,7 @@ def stepLine (st : Option DState) (line : String) : Option DState × String :=
       let v := validB d.P d.a op
       let (so, a') := specStep d.a op
       let a' := if null then { a' with lastp := none } else a'
+      if d.wild then (some { d with s := s', a := a' }, fmt o s') else
       (some { d with s := s', a := a' },
        fmt o s' ++ " spec=" ++ stName so.st ++ "," ++ hexOrDash (if null then [] else so.bytes) ++ "," ++ toString so.off
          ++ " valid=" ++ (if v then "1" else "0"))
